@@ -29,9 +29,12 @@ def gen_corpus(rng, nutt, allow_multi=False, containers=CONTAINERS, short_ok=Tru
         if shapes == "plain":
             ids.append("utt%02d" % i)
         elif shapes == "prefix":
-            ids.append("u" + "a" * (i % 3) + str(i // 3))  # ids that are prefixes of one another
+            ids.append(None)  # filled below: ids that are prefixes of one another, in seeded order
         else:
             ids.append(["a", "a1", "a-1", "B_2", "a.b", "utt", "utt1", "z9"][i % 8] + ("" if i < 8 else str(i)))
+    if shapes == "prefix":
+        pool = ["u", "ua", "uab", "uabc", "utt1", "utt10", "utt100", "utt11", "b", "b-1"]
+        ids = rng.sample(pool, nutt)
     corpus = []
     multi = allow_multi and rng.random() < 0.4
     for i, uid in enumerate(ids):
@@ -42,7 +45,8 @@ def gen_corpus(rng, nutt, allow_multi=False, containers=CONTAINERS, short_ok=Tru
             n = rng.randrange(40, 120)
         else:
             n = rng.randrange(120, 900)
-        u = {"id": uid, "container": rng.choice(containers), "n": n, "seed": rng.randrange(1 << 30),
+        cs = [c for c in containers if c != "wav"] if (multi and len(containers) > 1) else containers
+        u = {"id": uid, "container": rng.choice(cs), "n": n, "seed": rng.randrange(1 << 30),
              "channels": rng.choice((2, 3)) if multi else 1,
              "store_dtype": rng.choice(("float64", "float32", "int16"))}
         if u["container"] == "wav":
